@@ -26,7 +26,8 @@ type expression (texpr):
 value (tagged JSON):
   {"k":"int","v":3} {"k":"float","v":"1.5"} {"k":"str","v":".."} {"k":"bool","v":true}
   {"k":"none"} {"k":"date","v":"2001-02-03"} {"k":"path","v":"a/b"}
-  {"k":"list","v":[..]} {"k":"dict","v":[[key(str), val], ...]} {"k":"odict","v":[...]}
+  {"k":"list","v":[..]} {"k":"dict","v":[[key(str | tagged value), val], ...]} {"k":"odict","v":[...]}
+  {"k":"tuple","v":[..]}  # (as a dict key: YAML can write it, a load cannot build it)
   {"k":"obj","c":name,"a":[[param, val], ...],"x":[[key, val], ...]}
   {"k":"enum","c":name,"m":member} {"k":"ustr","c":name,"v":str}
   {"k":"ref","i":n}       # the n-th "obj"/"list"/"dict" built so far (shared sub-object)
@@ -388,6 +389,8 @@ def build_value(ns, val, built=None):
         built.append(out)
         out.extend(build_value(ns, x, built) for x in val['v'])
         return out
+    if k == 'tuple':
+        return tuple(build_value(ns, x, built) for x in val['v'])
     if k in ('dict', 'odict'):
         out = OrderedDict() if k == 'odict' else {}
         built.append(out)
@@ -472,6 +475,8 @@ def value_to_tree(spec, val, built=None):
         built.append(node)
         node['v'] = [value_to_tree(spec, x, built) for x in val['v']]
         return node
+    if k == 'tuple':
+        return {'t': 'seq', 'v': [value_to_tree(spec, x, built) for x in val['v']], 'tag': None}
     if k in ('dict', 'odict'):
         node = {'t': 'map', 'v': [], 'tag': None}
         built.append(node)
